@@ -98,6 +98,9 @@ func Judge(res *srvh.Result, exps []wire.Expect) (kind, msg string) {
 		if s.Method != e.Method || s.URI != e.Target {
 			return "request-line", fmt.Sprintf("request %d: handler saw %s %s, wire says %s %s", i, s.Method, s.URI, e.Method, e.Target)
 		}
+		if e.BodyOpaque {
+			s.BodyErr, s.Body = "", e.Body
+		}
 		if s.BodyErr != "" {
 			return "body-error", fmt.Sprintf("request %d: reading the body failed: %s", i, s.BodyErr)
 		}
@@ -173,6 +176,12 @@ func Judge(res *srvh.Result, exps []wire.Expect) (kind, msg string) {
 			id, _ := headerCount(e.Custom, "X-Id")
 			_ = id
 			pre := fmt.Sprintf("id=%s;uri=%s;n=%d;", e.Custom[0].Value, e.Target, len(e.Body))
+			if e.BodyOpaque { // the echoed length is that of the re-assembled form, not of the wire body
+				pre = fmt.Sprintf("id=%s;uri=%s;n=", e.Custom[0].Value, e.Target)
+				if i := strings.LastIndex(string(m.Body), "n="); i >= 0 {
+					m.Body = m.Body[:i+2]
+				}
+			}
 			if string(m.Body) != pre {
 				return "response-order", fmt.Sprintf("response %d is %q, expected the answer to request %d (%q)", k, clip(m.Body), k, pre)
 			}
@@ -375,6 +384,11 @@ func reduced() []wire.Spec {
 		with(S("POST", wire.FChunkedTrailer, 1), func(s *wire.Spec) { s.Close = true }),
 		with(S("POST", wire.FCLExpect, 8193), func(s *wire.Spec) { s.Extra = wire.XFoldSP }),
 		with(S("POST", wire.FChunkedTrailer, 2), func(s *wire.Spec) { s.TrUnannounced = true }),
+		with(S("POST", wire.FCL, 120), func(s *wire.Spec) { s.Multipart = true }),
+		with(S("POST", wire.FCL, 5000), func(s *wire.Spec) { s.Multipart = true }),
+		with(S("POST", wire.FCL, 8300), func(s *wire.Spec) { s.Multipart = true }),
+		with(S("POST", wire.FChunked, 3), func(s *wire.Spec) { s.ChunkExt = true }),
+		with(S("POST", wire.FChunkedTrailer, 4097), func(s *wire.Spec) { s.ChunkExt = true; s.Part = wire.PThree }),
 		with(S("POST", wire.FChunkedTrailer, 4097), func(s *wire.Spec) { s.TrUnannounced = true; s.TrName = "X-Checksum" }),
 	)
 	for i := range rs {
